@@ -58,7 +58,20 @@ func (g *fgen) call(in ssa.CallInstruction, st *state) []val {
 	}
 	rs := g.callInner(in, st)
 	if before != nil {
-		g.restoreStackLocals(before, st)
+		isClosure := false
+		c := in.Common()
+		if !c.IsInvoke() {
+			callee := c.StaticCallee()
+			if callee == nil || callee.Parent() != nil {
+				isClosure = true
+			}
+			for _, a := range c.Args {
+				if _, ok := a.Type().Underlying().(*types.Signature); ok {
+					isClosure = true // a function value is passed along: it may be one of ours
+				}
+			}
+		}
+		g.restoreStackLocals(before, st, isClosure)
 	}
 	g.assumeGinvs(st)
 	return rs
